@@ -435,3 +435,21 @@ func VH_C12_TimeRoundTrip() {
 	vrt.Assert(d >= -1 && d <= 1, "an instant set through SetEBPTime is read back within one nanosecond")
 	vrt.Reach("end")
 }
+
+// concrete instants at the edges of a second (translator-validation style vectors: everything is
+// concrete here, so code that computes through floating point is also covered)
+func VH_C12_TimeVectors() {
+	for era := 0; era < 2; era++ {
+		for _, secs := range c12seconds(era)[:4] {
+			for _, ns := range []uint64{0, 1, 499999999, 500000000, 999999761, 999999762, 999999880, 999999881, 999999998, 999999999} {
+				t := c12instant(era, secs, ns)
+				e := CreateComcastEBP()
+				e.SetEBPTime(t)
+				got := e.EBPTime()
+				d := (got.Unix()-t.Unix())*1000000000 + int64(got.Nanosecond()) - int64(ns)
+				vrt.Assert(d >= -1 && d <= 1, "an instant set through SetEBPTime is read back within one nanosecond (boundary vectors)")
+			}
+		}
+	}
+	vrt.Reach("end")
+}
